@@ -532,6 +532,10 @@ func runC09(c *fw.Ctx) {
 		blocks := blocks
 		c.Case(func(k *fw.K) { c09DeepDiamonds(k, blocks) })
 	}
+	// totality does not depend on the VALUES either: every operation on operands holding NaN, infinities and signed zeros returns
+	for i := 0; i < 40; i++ {
+		c.Case(func(k *fw.K) { c09SpecialValues(k) })
+	}
 	c.Case(func(k *fw.K) { c09Layers(k, pool) })
 	c.Case(func(k *fw.K) { c09LossesMetricsOptim(k, pool) })
 }
@@ -639,6 +643,25 @@ func c09TensorOf(k *fw.K, c *fw.Ctx) {
 	}{{row(3), okShape([]int{3})}, {row(1), okShape([]int{1})}, {[]float64{}, expect{}}, {nil, expect{}}} {
 		d := d
 		chk(k, "TensorOf", "depth1", fmt.Sprintf("%v", d.v), d.e, func() (tensor.Tensor, error) { return tensor.TensorOf(d.v, nil) })
+	}
+	// ragged data whose blocks are each rectangular, equally long and equally populated but FACTOR differently (2x3 next to 3x2, 1x4
+	// next to 2x2, rows 3,1 next to 2,2): not a tensor at any depth
+	blk := func(rows ...int) [][]float64 {
+		o := make([][]float64, len(rows))
+		for i, n := range rows {
+			o[i] = row(n)
+		}
+		return o
+	}
+	for i, d := range [][][][]float64{
+		{blk(3, 3), blk(2, 2, 2)}, {blk(2, 2, 2), blk(3, 3)}, {blk(4), blk(2, 2)}, {blk(2, 2), blk(1, 1, 1, 1)}, {blk(3, 1), blk(2, 2)}, {blk(2, 2), blk(2, 2), blk(1, 3)},
+	} {
+		d := d
+		chk(k, "TensorOf", "depth3", fmt.Sprintf("blocks with equal element counts that factor differently #%d", i), expect{}, func() (tensor.Tensor, error) { return tensor.TensorOf(d, nil) })
+		last := d[len(d)-1]
+		d4a, d4b := [][][][]float64{d, d}, [][][][]float64{{d[0], d[0]}, {last, last}}
+		chk(k, "TensorOf", "depth4", fmt.Sprintf("ragged depth-3 blocks repeated #%d", i), expect{}, func() (tensor.Tensor, error) { return tensor.TensorOf(d4a, nil) })
+		chk(k, "TensorOf", "depth4", fmt.Sprintf("top-level elements that are each rectangular, equally long and equally populated but factor differently #%d", i), expect{}, func() (tensor.Tensor, error) { return tensor.TensorOf(d4b, nil) })
 	}
 	// depth 2..4: describe data by a tree of lengths; mutate one node of a rectangular tree
 	type tree struct {
@@ -1215,6 +1238,71 @@ func c09LossesMetricsOptim(k *fw.K, pool [][]int) {
 		upd("after-reset", &reset, false)
 		var f tensor.Tensor = foreign{}
 		upd("foreign-without-gradient", &f, false)
+	}
+}
+
+func c09SpecialValues(k *fw.K) {
+	r := k.Rng
+	shape := [][]int{{2, 3}, {3}, {}, {2, 1, 2}}[r.Intn(4)]
+	mk := func() *ref.T {
+		t := Shuffled(r, Unique(r, shape, 0.2, 2))
+		for i := range t.Data {
+			if r.Intn(2) == 0 {
+				t.Data[i] = []float64{math.NaN(), math.Inf(1), math.Inf(-1), 0, math.Copysign(0, -1), 5e-324, 1.7e308}[r.Intn(7)]
+			}
+		}
+		return t
+	}
+	a, b := mk(), mk()
+	rank := len(shape)
+	ins := []ref.Instr{{Op: "exp"}, {Op: "log"}, {Op: "sin"}, {Op: "cos"}, {Op: "tan"}, {Op: "sinh"}, {Op: "cosh"}, {Op: "tanh"}, {Op: "scale", F: 0}, {Op: "scale", F: -2},
+		{Op: "pow", F: 0}, {Op: "pow", F: 0.5}, {Op: "pow", F: -1}, {Op: "pow", F: 2}, {Op: "relu"}, {Op: "sigmoid"}, {Op: "leakyrelu", F: 0.1}}
+	for _, op := range []string{"add", "sub", "mul", "div", "elmax", "elmin", "eq", "ne", "gt", "ge", "lt", "le"} {
+		ins = append(ins, ref.Instr{Op: op, In: []int{0, 1}})
+	}
+	for d := 0; d < rank; d++ {
+		for _, op := range c05Along {
+			ins = append(ins, ref.Instr{Op: op, Dim: d})
+		}
+		ins = append(ins, ref.Instr{Op: "softmax", Dim: d}, ref.Instr{Op: "concat", In: []int{0, 1}, Dim: d})
+	}
+	if rank >= 1 {
+		ins = append(ins, ref.Instr{Op: "dot", In: []int{0, 1}}, ref.Instr{Op: "patch", In: []int{0, 1}})
+	}
+	k.Key("special-values/%s", shapeKey(shape))
+	for _, in := range ins {
+		for _, tracked := range []bool{false, true} {
+			xs := []tensor.Tensor{rt.MustLeaf(a, tracked)}
+			if len(in.In) == 2 {
+				xs = append(xs, rt.MustLeaf(b, false))
+			}
+			k.Count("calls", 1)
+			y, err, p := exec(in, xs)
+			if p != nil || err != nil || y == nil {
+				k.Case = c09call{Entry: in.Op, Args: fmt.Sprintf("operands %v %v (tracked %v)", a.Data, b.Data, tracked), Want: "a result: the shapes and arguments are valid"}
+				k.Failf("%s on valid shapes %v with operands holding NaN / infinities / signed zeros: panic=%v err=%v", in.Op, shape, p, err)
+				return
+			}
+			if tracked {
+				if p := call(func() { err = tensor.BackPropagate(y) }); p != nil || err != nil {
+					k.Case = c09call{Entry: "BackPropagate after " + in.Op, Args: fmt.Sprintf("operands %v %v", a.Data, b.Data), Want: "no panic, no error"}
+					k.Failf("BackPropagate through %s over operands holding NaN / infinities: panic=%v err=%v", in.Op, p, err)
+					return
+				}
+			}
+		}
+	}
+	for _, f := range []func() float64{rt.MustLeaf(a, false).Sum, rt.MustLeaf(a, false).Max, rt.MustLeaf(a, false).Min, rt.MustLeaf(a, false).Mean, rt.MustLeaf(a, false).Var, rt.MustLeaf(a, false).Std} {
+		f := f
+		k.Count("calls", 1)
+		if p := call(func() { _ = f() }); p != nil {
+			k.Failf("a whole-tensor reducer on operands holding NaN / infinities panicked: %v", p)
+			return
+		}
+	}
+	var eqv bool
+	if p := call(func() { eqv, _ = rt.MustLeaf(a, false).Equals(rt.MustLeaf(b, false)) }); p != nil {
+		k.Failf("Equals on operands holding NaN / infinities panicked: %v (%v)", p, eqv)
 	}
 }
 
